@@ -15,7 +15,7 @@ RULE = ("Plans: every LSC (metaepoch limit, fitness steadiness, all children sto
 NONTRIVIAL_RULE = ">= 1 step judged with >= 1 deme turning inactive and its frozen state re-checked at a later event"
 EXPECTED_PROBES = ["c06-steps-judged", "c06-stopped-by-lsc", "c06-stopped-by-gsc", "c06-stopped-by-engine",
                    "c06-stopped-by-injected-lsc", "c06-frozen-rechecked", "c06-fresh-deme-waited",
-                   "c06-hibernating-skipped", "c06-cma-self-stop"]
+                   "c06-hibernating-skipped", "c06-cma-self-stop", "c06-survivor-judged"]
 ASSUMPTIONS = ["CMAEvolutionStrategy.stop() is queried by the monitor only for demes that are already inactive"]
 
 PROFILE = P.profile(p_lsc_inject=0.5, p_stop_signal=0.25, p_hibernation=0.35,
@@ -30,6 +30,9 @@ PROFILE = P.profile(p_lsc_inject=0.5, p_stop_signal=0.25, p_hibernation=0.35,
 def gen(seed, tier):
     pl = P.gen_plan(seed, PROFILE, PROP)
     # injected verdicts aimed at demes that exist: low ordinals, early metaepochs
+    for l in pl.get("levels", []):
+        if l["engine"] == "local" and seed % 3 == 0:
+            l["maxiter"] = [1, 2, 3][(seed // 3) % 3]
     f = pl.get("faults", {})
     if "lsc_inject" in f:
         import random
@@ -60,6 +63,8 @@ class C06Monitor(Monitor):
         self.frozen = {}  # id(deme) -> dict(obj, digest, n_evals, n_req)
         self.lsc_true = {}  # id(deme) -> True within the current step
         self.gsc_true = {}
+        self.lsc_consulted = {}
+        self.gsc_at_lsc = {}
         self.born = {}  # id(deme) -> step in which it was created
         self.hib_opt = bool(w.plan.get("options", {}).get("hibernation")) if "options" in w.plan else False
         self.req_count = {}
@@ -77,6 +82,8 @@ class C06Monitor(Monitor):
     def on_step_begin(self, tree):
         self.lsc_true = {}
         self.gsc_true = {}
+        self.lsc_consulted = {}
+        self.gsc_at_lsc = {}
         b = {}
         for d in all_demes(tree):
             b[id(d)] = {"obj": d, "active": bool(d._active), "hib": bool(d._hibernating and self.hib_opt),
@@ -86,6 +93,17 @@ class C06Monitor(Monitor):
     def on_lsc(self, deme, raw, verdict):
         if verdict:
             self.lsc_true[id(deme)] = "injected" if not raw else "lsc"
+        self.lsc_consulted[id(deme)] = True
+        # The LSC is consulted at the end of the deme's metaepoch.  If the global stop condition holds at that
+        # very moment the deme must end up inactive (no evaluation happens between a deme's last GSC consult and
+        # its LSC consult, so on a correct deme the GSC is false here).
+        tree = self.w.tree
+        if tree is not None and self.w.tree_ready:
+            try:
+                if tree._gsc(tree):
+                    self.gsc_at_lsc[id(deme)] = True
+            except Exception:
+                pass
 
     def on_consult(self, tree, site, deme, raw, verdict):
         if site == "gen" and deme is not None and verdict:
@@ -180,6 +198,17 @@ class C06Monitor(Monitor):
                     self.violate("lsc-true-but-still-active/" + cls, {"deme": d.id, "how": self.lsc_true[id(d)]})
                 if id(d) in self.gsc_true:
                     self.violate("gsc-true-but-still-active/" + cls, {"deme": d.id})
+                if not b["hib"] and adv >= 1:
+                    # it ran its metaepoch and is still active
+                    if cls == "LocalDeme":
+                        self.violate("local-deme-still-active-after-its-search", {"deme": d.id})
+                    else:
+                        w.probe("c06-survivor-judged")
+                        if id(d) not in self.lsc_consulted:
+                            self.violate("still-active-without-consulting-lsc/" + cls, {"deme": d.id, "step": w.step})
+                        if id(d) in self.gsc_at_lsc:
+                            self.violate("gsc-held-at-end-of-metaepoch-but-still-active/" + cls,
+                                         {"deme": d.id, "step": w.step})
             elif (not b["active"]) and d._active:
                 self.violate("reactivated/" + cls, {"deme": d.id, "where": "step-end"})
             if not b["active"] and id(d) not in self.frozen:
